@@ -194,6 +194,14 @@ func (dec *Decimal) SetString(s string) error {
 		right = split[1]
 	}
 
+	// Trailing zeros of the fraction carry no value. What remains must
+	// fit into the scale, otherwise the digits would silently be read
+	// as a different number.
+	right = strings.TrimRight(right, "0")
+	if len(right) > dec.Scale {
+		return fmt.Errorf("number %s has more than %d fractional digits", s, dec.Scale)
+	}
+
 	// Set underlying big.Int structure to the whole number
 	i := &big.Int{}
 	if _, ok := i.SetString(left+right, 10); !ok {
